@@ -50,7 +50,7 @@ def step (w : W) (ts : List String) : W × List String :=
   | ["peer", idx, kind, as, rid, addr, sendMax, apRx, allowOwn] =>
     let cfg : PeerCfg := { idx := nat! idx, kind := kindOf kind, as := nat! as, rid := nat! rid, addr := nat! addr,
                            sendMax := nat! sendMax, addPathRx := b! apRx, allowOwnAs := nat! allowOwn }
-    ({ w with peers := w.peers ++ [{ cfg := cfg }] }, [])
+    (World.step w (.add cfg), [])
   | ["up", idx] => (World.step w (.up (nat! idx)), [])
   | ["down", idx] => (World.step w (.down (nat! idx)), [])
   | "ann" :: idx :: rest =>
@@ -58,6 +58,12 @@ def step (w : W) (ts : List String) : W × List String :=
     | some r => (World.step w (.ann (nat! idx) r), [])
     | none => (w, ["bad-op"])
   | ["wd", idx, pfx, pid] => (World.step w (.wd (nat! idx) (nat! pfx) (nat! pid)), [])
+  | "ladd" :: rest =>
+    match parseRoute rest with
+    | some r => (World.step w (.localAdd r), [])
+    | none => (w, ["bad-op"])
+  | ["ldel", pfx, pid] => (World.step w (.localDel (nat! pfx) (nat! pid)), [])
+  | ["del", idx] => (World.step w (.del (nat! idx)), [])
   | ["view", idx] =>
     match w.peer? (nat! idx) with
     | some ps => (w, ["view" ++ showView ps.view])
